@@ -824,6 +824,7 @@ func c14play(cs *c14case, next func(r *c14run, i int) *c14op, emit func(op, ans 
 		if op == nil {
 			break
 		}
+		c14inflight(cs, i)
 		if err := r.exec(*op); err != nil {
 			return r, err
 		}
@@ -880,7 +881,13 @@ func c14emitCase(c *hx.Ctx, cs *c14case, next func(r *c14run, i int) *c14op) err
 }
 
 func init() {
-	hx.Register("C14", func(c *hx.Ctx) error {
+	// the channel body runs in a re-exec'd child process: a fatal runtime error of the code under test (e.g. "unlock of
+	// unlocked mutex") cannot be recovered and must be reported with the operation sequence that was in flight
+	hx.Register("C14", func(c *hx.Ctx) error { return c14viaChild(c, "C14", c14sequential) })
+}
+
+func c14sequential(c *hx.Ctx) error {
+	{
 		defer os.RemoveAll("./testdata")
 		defer os.RemoveAll("./testdata2")
 		if c.Replay != "" {
@@ -936,5 +943,5 @@ func init() {
 			}
 		}
 		return nil
-	})
+	}
 }
